@@ -8,7 +8,7 @@ ID = 'C15'
 TITLE = 'Concurrent callers of one synchronous client are serialised'
 QUICK_S = 45
 THOROUGH_S = 600
-RULE = ('2-4 caller tasks x 1-3 transactions on ONE shared real client (TCP, UDP, serial-rtu), all callers on one unit or spread over the units of a gateway; the reference server answers '
+RULE = ('2-4 caller tasks x 1-3 transactions on ONE shared real client (TCP, UDP, serial-rtu), started together or 0.2-30 ms apart, all callers on one unit or spread over the units of a gateway; the reference server answers '
         'every request correctly with per-request reply lengths and latencies and unique values; the scheduler may pre-empt a '
         'caller at every transport operation (connect, send, select/recv/read, sleep, lock acquire) and, in the thorough tier, '
         'at 1-3 selected line events inside transaction.py / client/sync.py / framers (PCT-style). Systematic part: for 2 '
@@ -68,9 +68,15 @@ def generate(rng, tier, index):
     if tier == 'thorough' and rng.random() < 0.4:
         # PCT-style: 1-3 forced switches at line events inside the client code
         sched['preempt_lines'] = sorted(set(rng.randrange(1, 2500) for _ in range(rng.randint(1, 3))))
-    return {'property': ID, 'harness': 'cli', 'client': {'kind': kind, 'framing': framing, 'kwargs': kw},
-            'callers': callers, 'cpu_step': rng.choice([2e-6, 1e-5, 5e-5]), 'sched': sched,
-            'preconnect': rng.random() < 0.85}
+    scn = {'property': ID, 'harness': 'cli', 'client': {'kind': kind, 'framing': framing, 'kwargs': kw},
+           'callers': callers, 'cpu_step': rng.choice([2e-6, 1e-5, 5e-5]), 'sched': sched,
+           'preconnect': rng.random() < 0.85}
+    if rng.random() < 0.5:
+        # threads do not start in lock-step: a caller may enter execute() at any instant of another caller's
+        # transaction (before its request is out, while its reply is on the way, between two of its reads)
+        scn['caller_delay'] = [0.0] + [rng.choice([0.0, 0.0002, 0.0005, 0.001, 0.002, 0.003, 0.008, 0.015, 0.03])
+                                       for _ in range(n - 1)]
+    return scn
 
 
 def systematic(tier):
